@@ -36,7 +36,8 @@ def gen_case(seed, i):
     cfg["threads"] = rng.choice([["1"], [], ["2"]])
     nroots = rng.choice([1, 1, 2, 3])
     world, roots = gen.gen_world(rng, cfg, nroots=nroots, hostile=rng.random() < 0.6,
-                                 max_files=rng.choice([6, 12, 20]), families=rng.randint(1, 5), min_len=0)
+                                 max_files=rng.choice([6, 12, 20]), families=rng.randint(1, 5), min_len=0,
+                                 hostile_roots=rng.random() < 0.3)
     gflags = []
     isolate = nroots >= 2 and rng.random() < 0.4
     if isolate:
